@@ -147,8 +147,14 @@ pub async fn update_account_key(
 		Err(HttpError::GenericError(e)) => {
 			return Err(e);
 		}
-		Err(HttpError::ApiError(e)) => {
-			if e.get_acme_type() != AcmeError::AccountDoesNotExist {
+		Err(HttpError::ApiError(e)) => match e.get_acme_type() {
+			// The roll-over request below gets the same answer and registers the account again.
+			AcmeError::AccountDoesNotExist => {}
+			// What a CA answers to a signature it cannot verify with the key it holds.
+			AcmeError::Unauthorized
+			| AcmeError::Malformed
+			| AcmeError::BadSignatureAlgorithm
+			| AcmeError::BadPublicKey => {
 				let account_owned = account.clone();
 				let new_key_probe = set_data_builder_sync!(account_owned, endpoint_name, b"");
 				http::post_jose_no_response(endpoint, &new_key_probe, &account_url)
@@ -159,7 +165,10 @@ pub async fn update_account_key(
 				account.save().await?;
 				return Ok(());
 			}
-		}
+			_ => {
+				return Err(e.to_string().into());
+			}
+		},
 	}
 	let data_builder = |n: &str, url: &str| {
 		encode_kid(
